@@ -53,3 +53,115 @@ Print Assumptions C04_conflict_iff.
 
 (* "no state changes": in the pure model the arguments are values; that the Go code
    leaves its arguments untouched is property C08 *)
+
+(* ---- at the level of Apply, along histories (Proofs/{RefDiffVeqb,ConflictsApply}.v;
+   setting of Proofs/History.v): at every state satisfying the invariant -- hence at every
+   reachable state -- a forced apply of an admissible configuration succeeds, and the
+   non-forced apply either returns exactly what the forced one returns, or fails with a
+   non-empty conflict list naming precisely the pairs (other manager, path of its record)
+   whose path the forced apply changes or newly creates, in terms of the independent
+   reference diff between the live object and the resulting object. ---- *)
+From Coq Require Import Arith Lia.
+From SMD Require Import Model.Walk Model.Validate Model.FieldSet Model.Remove Model.Merge Model.Matcher Model.Reconcile
+  Spec.PathsAsSets Spec.RefValid Spec.Resolve Spec.Agree Spec.RefDiff Spec.Examples
+  Proofs.SchemaOk Proofs.FieldSetBase Proofs.FieldSetPaths
+  Proofs.FieldSetWf Proofs.FieldSetLaws Proofs.RemoveAbsent Proofs.RemoveWf Proofs.ResolveLaws
+  Proofs.UpdaterLaws2 Proofs.MergeLaws Proofs.MergeAgree
+  Proofs.RemoveFrame Proofs.EnLaws Proofs.NodeSet Proofs.KeyFields Proofs.VeqbResolve
+  Proofs.SetCheckers Proofs.ApplyEffect Proofs.RefDiffBoth Proofs.RefDiffLaws Proofs.RefDiffPresent
+  Proofs.ApplyInv Proofs.History Proofs.CompareLaws Proofs.ApplyPruneBase Proofs.ReconcileTotal Proofs.PruneTotal
+  Proofs.Reapply Proofs.RefDiffVeqb Proofs.ConflictsApply.
+Open Scope string_scope.
+Theorem C04_forced_apply_succeeds :
+  forall (c : config) (R : typeref -> Prop) (ver : string) (live : value) 
+           (mf : managed) (mgr : string) (cfg : value),
+         setting_ok c R ver ->
+         state_ok c ver live mf ->
+         op_ok c ver (HApply mgr cfg true) ->
+         exists (o : option tv) (mf' : managed),
+           apply_op c (ver, live) (ver, cfg) ver mf mgr true = UOk (o, mf').
+Proof. exact forced_apply_succeeds. Qed.
+Print Assumptions C04_forced_apply_succeeds.
+
+Theorem C04_apply_conflicts_exact :
+  forall (c : config) (R : typeref -> Prop) (ver : string) (live : value) 
+           (mf : managed) (mgr : string) (cfg : value) (o : option tv) 
+           (mf' : managed),
+         setting_ok c R ver ->
+         state_ok c ver live mf ->
+         op_ok c ver (HApply mgr cfg true) ->
+         apply_op c (ver, live) (ver, cfg) ver mf mgr true = UOk (o, mf') ->
+         let res := match o with
+                    | Some t => snd t
+                    | None => live
+                    end in
+         let d := ref_diff (schema_of c ver) (tr_of c ver) live res in
+         let hits :=
+           fun (m : string) (p : path) =>
+           m <> mgr /\
+           (exists r : mrec, mf_get m mf = Some r /\ ps_has p (mr_set r) = true) /\
+           (pmem p (rd_modified d) = true \/ pmem p (rd_added d) = true) in
+         apply_op c (ver, live) (ver, cfg) ver mf mgr false = UOk (o, mf') /\
+         (forall (m : string) (p : path), wf_path p = true -> p <> nil -> ~ hits m p) \/
+         (exists cs : list (string * path),
+            apply_op c (ver, live) (ver, cfg) ver mf mgr false = UErr (EConflict cs) /\
+            cs <> nil /\
+            (forall (m : string) (p : path),
+             wf_path p = true -> p <> nil -> conflict_listed cs m p = true <-> hits m p)).
+Proof. exact apply_conflicts_exact. Qed.
+Print Assumptions C04_apply_conflicts_exact.
+
+Theorem C04_apply_conflicts_exact_along_every_history :
+  forall (c : config) (R : typeref -> Prop) (ver : string) (ops : list hop) 
+           (mgr : string) (cfg : value) (o : option tv) (mf' : managed),
+         setting_ok c R ver ->
+         Forall (op_ok c ver) ops ->
+         op_ok c ver (HApply mgr cfg true) ->
+         let live := fst (run c ver ops) in
+         let mf := snd (run c ver ops) in
+         apply_op c (ver, live) (ver, cfg) ver mf mgr true = UOk (o, mf') ->
+         let res := match o with
+                    | Some t => snd t
+                    | None => live
+                    end in
+         let d := ref_diff (schema_of c ver) (tr_of c ver) live res in
+         let hits :=
+           fun (m : string) (p : path) =>
+           m <> mgr /\
+           (exists r : mrec, mf_get m mf = Some r /\ ps_has p (mr_set r) = true) /\
+           (pmem p (rd_modified d) = true \/ pmem p (rd_added d) = true) in
+         apply_op c (ver, live) (ver, cfg) ver mf mgr false = UOk (o, mf') /\
+         (forall (m : string) (p : path), wf_path p = true -> p <> nil -> ~ hits m p) \/
+         (exists cs : list (string * path),
+            apply_op c (ver, live) (ver, cfg) ver mf mgr false = UErr (EConflict cs) /\
+            cs <> nil /\
+            (forall (m : string) (p : path),
+             wf_path p = true -> p <> nil -> conflict_listed cs m p = true <-> hits m p)).
+Proof. exact apply_conflicts_exact_along_histories. Qed.
+Print Assumptions C04_apply_conflicts_exact_along_every_history.
+
+Theorem C04_example :
+  run ex_config "v1" hx_ops = (hx_obj, hx_mf) /\
+         op_ok ex_config "v1" (HApply "b" hx_cfg true) /\
+         apply_op ex_config ("v1", hx_obj) ("v1", hx_cfg) "v1" hx_mf "b" false =
+         UErr (EConflict (("a", PEField "aa" :: nil) :: nil)) /\
+         (exists (o : option tv) (mf' : managed),
+            apply_op ex_config ("v1", hx_obj) ("v1", hx_cfg) "v1" hx_mf "b" true = UOk (o, mf')) /\
+         (forall (o : option tv) (mf' : managed),
+          apply_op ex_config ("v1", hx_obj) ("v1", hx_cfg) "v1" hx_mf "b" true = UOk (o, mf') ->
+          let res := match o with
+                     | Some t => snd t
+                     | None => hx_obj
+                     end in
+          let d := ref_diff ex_schema ex_rt hx_obj res in
+          (exists r : mrec,
+             mf_get "a" hx_mf = Some r /\ ps_has (PEField "aa" :: nil) (mr_set r) = true) /\
+          (pmem (PEField "aa" :: nil) (rd_modified d) = true \/
+           pmem (PEField "aa" :: nil) (rd_added d) = true) /\
+          ~
+          (pmem (PEField "items" :: PEKey (("name", VStr "y") :: nil) :: nil) (rd_modified d) =
+           true \/
+           pmem (PEField "items" :: PEKey (("name", VStr "y") :: nil) :: nil) (rd_added d) = true)).
+Proof. exact conflicts_apply_example. Qed.
+Print Assumptions C04_example.
+
